@@ -23,8 +23,14 @@ CK = {"string": "KString", "bool": "KBool", "int": "KInt", "int8": "KInt8", "int
       "struct": "KOther", "ptr": "KOther", "iface": "KOther", "error": "KOther",
       "Name": "(KNamed KString)", "Flag": "(KNamed KBool)", "Celsius": "(KNamed KFloat64)", "Level": "(KNamed KInt)",
       "Small": "(KNamed KInt8)", "Ratio": "(KNamed KFloat32)"}
-NAMED = {"Name": "string", "Flag": "bool", "Celsius": "float64", "Level": "int", "Small": "int8", "Ratio": "float32"}
+NAMED = {"Name": "string", "Flag": "bool", "Celsius": "float64", "Level": "int", "Small": "int8", "Ratio": "float32",
+         # defined types WITH methods (String(), Error(), MarshalText()), and two from the standard library
+         "DurS": "int64", "MonthS": "int", "TempS": "float64", "NameS": "string", "FlagS": "bool", "ErrS": "string",
+         "CodeE": "int", "TextM": "int", "SmallS": "uint8", "Duration": "int64", "Month": "int"}
 GOTYPE = dict((("main." + n), n) for n in NAMED)       # reflect type string -> our name
+GOTYPE.update({"time.Duration": "Duration", "time.Month": "Month"})
+for _n, _b in NAMED.items():
+    CK.setdefault(_n, "(KNamed %s)" % CK[_b])
 UNSUPPORTED = ["slice", "map", "struct", "ptr", "iface"]
 BOUNDS = {"int": (-2 ** 63, 2 ** 63 - 1), "int64": (-2 ** 63, 2 ** 63 - 1), "int8": (-128, 127), "int16": (-32768, 32767),
           "int32": (-2 ** 31, 2 ** 31 - 1), "uint": (0, 2 ** 64 - 1), "uint64": (0, 2 ** 64 - 1), "uint8": (0, 255),
@@ -35,6 +41,8 @@ METHODS = {"I64": (["int64"], "int64"), "I32": (["int32"], "int32"), "I8": (["in
            "Mix": (["int", "float64", "string"], "string"), "None": ([], ""),
            "IS": (["int", "string"], "string"), "SI": (["string", "int"], "int"), "II": (["int", "int"], "int"),
            "SS": (["string", "string"], "bool"), "FF": (["float64", "float64"], "float64"), "BI": (["bool", "int"], "bool"),
+           "RetDur": (["int64"], "DurS"), "RetMonth": (["int"], "Month"), "RetNameS": (["string"], "NameS"),
+           "RetTempS": (["float64"], "TempS"), "TakeDur": (["DurS"], "int64"),
            "SIF": (["string", "int", "float64"], "int"), "III": (["int", "int", "int"], "int"), "I8U8": (["int8", "uint8"], "int8")}
 
 
@@ -538,5 +546,5 @@ def main(ck):
     ck.cov["outcomes"] = {k: sum(1 for o in outs if o["out"] == k) for k in ("val", "nil", "throw", "panic", "go")}
     ck.samples = [cases[40], cases[len(cases) // 2], cases[-1]]
     ck.finish(level="proof", evaluations=len(cases), distinct_nontrivial=len(nontriv),
-              rule="reflective path: every parameter kind (14 supported + an unsupported slice) x a per-kind pool (min, max, min-1, max+1 of the kind, 0, +-1, int64 limits, +-0.0, subnormal, float32 max / just above / 1e308, inf, NaN, empty, multi-byte, invalid UTF-8 and 64 KiB strings, values of every other script kind, null, array) x 5 result kinds at arity 1; every signature of arity 2 and 3 over the 14 kinds (196 + 2744) with pool-sampled arguments and a random result kind; POSITION matrix: every signature of arity 2 and 3 over {int, float64, string, bool} x result kind among them x every argument position holding one argument of another script sort (int, fractional float, non-numeric and numeric string, bool, null, array) while all other arguments are exactly of their parameter's sort; every result kind x boundary results at arity 0; 21 methods of a registered struct (nine with two or three parameters, with the position matrix); the reflected constructor new T(args) on two structs (0-7 arguments, each position holding each of 20 values, surplus arguments, random tuples); arguments with a history ($x = v1; $x = v2; f($x)) for 14 values x 8 parameter kinds; CONCURRENT: 8 workers x 4 000 calls each of one registered function and of one struct method, from goroutines and from spawned script coroutines, arguments tagged per caller and checked in Go, repeated under -race (4 x 300); generic path: ConvertFromIndex[T] for all 14 T x 41 scalar/boundary values (thorough: + 20 000 random ints/floats); non-trivial = distinct call with at least one parameter, or distinct generic conversion",
+              rule="reflective path: every parameter kind (14 supported + an unsupported slice) x a per-kind pool (min, max, min-1, max+1 of the kind, 0, +-1, int64 limits, +-0.0, subnormal, float32 max / just above / 1e308, inf, NaN, empty, multi-byte, invalid UTF-8 and 64 KiB strings, values of every other script kind, null, array) x 5 result kinds at arity 1; every signature of arity 2 and 3 over the 14 kinds (196 + 2744) with pool-sampled arguments and a random result kind; POSITION matrix: every signature of arity 2 and 3 over {int, float64, string, bool} x result kind among them x every argument position holding one argument of another script sort (int, fractional float, non-numeric and numeric string, bool, null, array) while all other arguments are exactly of their parameter's sort; every result kind x boundary results at arity 0; 21 methods of a registered struct (nine with two or three parameters, with the position matrix); 17 defined types (six without methods, nine with String() / Error() / MarshalText(), time.Duration, time.Month) as parameters and results; the reflected constructor new T(args) on two structs (0-7 arguments, each position holding each of 20 values, surplus arguments, random tuples); arguments with a history ($x = v1; $x = v2; f($x)) for 14 values x 8 parameter kinds; CONCURRENT: 8 workers x 4 000 calls each of one registered function and of one struct method, from goroutines and from spawned script coroutines, arguments tagged per caller and checked in Go, repeated under -race (4 x 300); generic path: ConvertFromIndex[T] for all 14 T x 41 scalar/boundary values (thorough: + 20 000 random ints/floats); non-trivial = distinct call with at least one parameter, or distinct generic conversion",
               traces=len(terms))
